@@ -10,21 +10,25 @@ variable (S : Sem St)
 
 theorem ps_step (n : Nat) (hS : PS S n) (hV : PVars S n) (hL : PList S n) (hW : PWhile S n)
     (hD : PDoWhile S n) (hF : PFor S n) (hC : PCases S n) : PS S (n+1) := by
-  intro m s L ls iter σ H1 H2 hwl
+  intro m s L ls iter σ H1 H1' H2 hwl
+  have hLE : ∀ (m : Nat) (ss : Stmts) (σ0 : St), wlList iter ss = true → Sim [] iter (ottoList S n ss [] σ0 .empty) (specList S m ss σ0) := by
+    intro m ss σ0 h
+    have := hL m ss iter σ0 .empty rfl h
+    rwa [show ovVal OV.empty = none from rfl, listWrap_none] at this
   cases m with
   | zero => simp only [specS]; exact sim_fuel_r _ _ _
   | succ m =>
     cases s with
-    | empty => simp only [ottoS, specS]; exact sim_ok _ (labok_refl _) (by simp [KindRel])
+    | empty => simp only [ottoS, specS]; exact sim_ok _ (labok_refl _) (by simp [KindRel, KindRelT, ovVal])
     | expr e =>
       simp only [ottoS, specS]
       cases S.evalE e σ with
-      | ok v σ' => exact sim_ok _ (labok_refl _) (by simp [KindRel])
+      | ok v σ' => exact sim_ok _ (labok_refl _) (by simp [KindRel, KindRelT, ovVal])
       | throw v σ' => exact sim_throw _ _ (labok_refl _)
     | varS inits => simp only [ottoS, specS]; exact hV m inits L iter σ
     | block ss =>
       simp only [ottoS, specS]
-      exact simN_sim (block_simN (hL m ss iter σ (.val .undef) rfl (by simpa [wlS] using hwl)))
+      exact simN_sim (block_simN (hLE m ss σ (by simpa [wlS] using hwl)))
     | ifS c t e =>
       simp only [wlS, Bool.and_eq_true] at hwl
       simp only [ottoS, specS]
@@ -32,47 +36,53 @@ theorem ps_step (n : Nat) (hS : PS S n) (hV : PVars S n) (hL : PList S n) (hW : 
       | throw v σ' => exact sim_throw _ _ (labok_refl _)
       | ok v σ' =>
         cases ht : S.truthy v with
-        | true => simp only [ht, if_true]; exact hS m t L [] iter σ' (by simp) H2 hwl.1
-        | false => simp only [ht, Bool.false_eq_true, if_false]; exact hS m e L [] iter σ' (by simp) H2 hwl.2
+        | true => simp only [ht, if_true]; exact sim_weaken (labok_nil L) (hS m t [] [] iter σ' (by simp) (by simp) (by simp) hwl.1)
+        | false =>
+          simp only [ht, Bool.false_eq_true, if_false]
+          exact sim_weaken (labok_nil L) (hS m e [] [] iter σ' (by simp) (by simp) (by simp) hwl.2)
     | whileS c b =>
       simp only [ottoS, specS]
-      exact hW m c b L ls iter σ .empty none H1 H2 (by simpa [wlS] using hwl) rfl
+      exact hW m c b L ls iter σ .empty none H1 H1' H2 (by simpa [wlS] using hwl) rfl rfl
     | doWhile b c =>
       simp only [ottoS, specS]
-      exact hD m c b L ls iter σ .empty none H1 H2 (by simpa [wlS] using hwl) rfl
+      exact hD m c b L ls iter σ .empty none H1 H1' H2 (by simpa [wlS] using hwl) rfl rfl
     | forS init test update b =>
       simp only [ottoS, specS]
       cases init with
-      | none => exact hF m test update b L ls iter σ .empty none H1 H2 (by simpa [wlS] using hwl) rfl
+      | none => exact hF m test update b L ls iter σ .empty none H1 H1' H2 (by simpa [wlS] using hwl) rfl rfl
       | some e =>
         simp only
         cases S.evalE e σ with
         | throw v σ' => exact sim_throw _ _ (labok_nil _)
-        | ok v σ' => exact hF m test update b L ls iter σ' .empty none H1 H2 (by simpa [wlS] using hwl) rfl
+        | ok v σ' => exact hF m test update b L ls iter σ' .empty none H1 H1' H2 (by simpa [wlS] using hwl) rfl rfl
     | labelled l s =>
       simp only [wlS, Bool.and_eq_true, Bool.not_eq_true', List.contains_eq_mem, decide_eq_false_iff_not] at hwl
       simp only [ottoS, specS]
-      refine label_sim (hS m s (L ++ [l]) (l :: ls) iter σ ?_ ?_ hwl.2)
+      refine label_sim (hS m s (L ++ [l]) (l :: ls) iter σ ?_ ?_ ?_ hwl.2)
       · intro t ht
         rcases List.mem_cons.mp ht with h | h
         · subst h; simp
         · exact List.mem_append.mpr (Or.inl (H1 t h))
       · intro t ht
         rcases List.mem_append.mp ht with h | h
+        · exact List.mem_cons_of_mem _ (H1' t h)
+        · simp at h; subst h; simp
+      · intro t ht
+        rcases List.mem_append.mp ht with h | h
         · exact H2 t h
         · simp at h; subst h; exact hwl.1
-    | brk t => simp only [ottoS, specS]; exact sim_ok _ (labok_refl _) (by simp [KindRel])
+    | brk t => simp only [ottoS, specS]; exact sim_ok _ (labok_refl _) (by simp [KindRel, KindRelT, ovVal])
     | cont t =>
       simp only [wlS, Bool.or_eq_true, decide_eq_true_eq, List.contains_eq_mem] at hwl
       simp only [ottoS, specS]
-      exact sim_ok _ (labok_refl _) (by simp only [KindRel, true_and]; exact hwl)
+      exact sim_ok _ (labok_refl _) ⟨by simp only [KindRelT, true_and]; exact hwl, rfl⟩
     | ret e =>
       cases e with
-      | none => simp only [ottoS, specS]; exact sim_ok _ (labok_refl _) (by simp [KindRel])
+      | none => simp only [ottoS, specS]; exact sim_ok _ (labok_refl _) (by simp [KindRel, KindRelT, ovVal])
       | some e =>
         simp only [ottoS, specS]
         cases S.evalE e σ with
-        | ok v σ' => exact sim_ok _ (labok_refl _) (by simp [KindRel])
+        | ok v σ' => exact sim_ok _ (labok_refl _) (by simp [KindRel, KindRelT, ovVal])
         | throw v σ' => exact sim_throw _ _ (labok_refl _)
     | throwS e =>
       simp only [ottoS, specS]
@@ -83,11 +93,11 @@ theorem ps_step (n : Nat) (hS : PS S n) (hV : PVars S n) (hL : PList S n) (hW : 
       simp only [wlS, Bool.and_eq_true] at hwl
       simp only [ottoS, specS]
       refine simN_sim (finally_simN hasFin (catch_simN S hasCatch param
-        (block_simN (hL m b iter σ (.val .undef) rfl hwl.1.1)) ?_) ?_)
+        (block_simN (hLE m b σ hwl.1.1)) ?_) ?_)
       · intro σ1
-        exact simN_weaken_nil (block_simN (L := []) (hL m c iter σ1 (.val .undef) rfl hwl.1.2))
+        exact simN_weaken_nil (block_simN (L := []) (hLE m c σ1 hwl.1.2))
       · intro σ2
-        exact block_simN (L := []) (hL m f iter σ2 (.val .undef) rfl hwl.2)
+        exact block_simN (L := []) (hLE m f σ2 hwl.2)
     | withS e b =>
       simp only [wlS] at hwl
       simp only [ottoS, specS]
@@ -97,7 +107,7 @@ theorem ps_step (n : Nat) (hS : PS S n) (hV : PVars S n) (hL : PList S n) (hW : 
         simp only
         cases S.withEnter v σ' with
         | throw t σ2 => exact sim_throw _ _ (labok_refl _)
-        | ok w σ2 => exact withExit_sim S (hS m b L [] iter σ2 (by simp) H2 hwl)
+        | ok w σ2 => exact withExit_sim S (sim_weaken (labok_nil L) (hS m b [] [] iter σ2 (by simp) (by simp) (by simp) hwl))
     | switchS d cs =>
       simp only [ottoS, specS]
       cases S.evalE d σ with
@@ -114,13 +124,13 @@ theorem ps_step (n : Nat) (hS : PS S n) (hV : PVars S n) (hL : PList S n) (hW : 
             intro k
             rw [sDropCases_eq]
             exact switch_sim H1 (hC m (dropCases k cs) (L ++ [""]) iter σ'' .empty none
-              (wlCases_drop iter k cs (by simpa [wlS] using hwl)) rfl)
+              (wlCases_drop iter k cs (by simpa [wlS] using hwl)) rfl rfl)
           cases idx with
           | some i => exact hrun i
           | none =>
             simp only
             cases hd : defaultIdx cs 0 with
-            | none => exact sim_ok _ (labok_nil _) (by simp [KindRel])
+            | none => exact sim_ok _ (labok_nil _) (by simp [KindRel, KindRelT, ovVal])
             | some k => exact hrun k
 
 
@@ -130,16 +140,16 @@ def PAll (n : Nat) : Prop :=
 
 theorem pall_zero : PAll S 0 := by
   refine ⟨?_, ?_, ?_, ?_, ?_, ?_, ?_, ?_, ?_, ?_⟩
-  · intro m s L ls iter σ _ _ _; simp [ottoS, Sim]
+  · intro m s L ls iter σ _ _ _ _; simp [ottoS, Sim]
   · exact pvars_all S 0
   · intro m ss iter σ result _ _; simp [ottoList, Sim]
-  · intro m ss labels iter σ result _; simp [ottoBody, BodyRel]
-  · intro m b labels iter σ result _; simp [ottoBody, BodyRel]
-  · intro m c b L ls iter σ result V _ _ _ _; simp [ottoWhile, Sim]
-  · intro m c b L ls iter σ result V _ _ _ _; simp [ottoDoWhile, Sim]
-  · intro m t u b L ls iter σ result V _ _ _ _; simp [ottoFor, Sim]
-  · intro m ss labels iter σ result _ _; simp [ottoClause, ClauseRel]
-  · intro m cs labels iter σ result V _ _; simp [ottoCases, ClauseRel]
+  · intro m ss labels iter σ result pass V _ _ _ _; simp [ottoBody, BodyRel]
+  · intro m b labels iter σ result _ _; simp [ottoBody, BodyRel]
+  · intro m c b L ls iter σ result V _ _ _ _ _ _; simp [ottoWhile, Sim]
+  · intro m c b L ls iter σ result V _ _ _ _ _ _; simp [ottoDoWhile, Sim]
+  · intro m t u b L ls iter σ result V _ _ _ _ _ _; simp [ottoFor, Sim]
+  · intro m ss labels iter σ result P V _ _ _; simp [ottoClause, ClauseRel]
+  · intro m cs labels iter σ result V _ _ _; simp [ottoCases, ClauseRel]
 
 theorem pall_all : ∀ n, PAll S n := by
   intro n
